@@ -12,6 +12,7 @@ pub struct IterStats {
     pub unwrap_checks: u64,
     pub trim_checks: u64,
     pub max_depth: u64,
+    pub advanced_event_views: u64,
 }
 
 /// Parse the derived `Debug` rendering of a root node: sequence of struct names that
@@ -120,6 +121,83 @@ pub fn check_traversal<'a>(
     if let Some((s, n)) = sizes.last() {
         if *s != 0 || *n != items.len() {
             return Err("first yielded node does not enclose all others".into());
+        }
+    }
+    // the event view may be taken from an iterator that has already been advanced, or that was built from several
+    // nodes: its Enter projection is the rest of the plain iteration, and every Leave closes the innermost open Enter
+    {
+        let check_events = |evs: EventIter<'a>, want: &[RefNode<'a>], what: &str| -> Result<(), String> {
+            let mut open: Vec<RefNode<'a>> = Vec::new();
+            let mut k = 0usize;
+            for ev in evs {
+                match ev {
+                    NodeEvent::Enter(x) => {
+                        if k >= want.len() || !same_node(&want[k], &x) {
+                            return Err(format!("{}: Enter #{} is {} but plain iteration continues with {}", what, k, x, want.get(k).map(|n| format!("{}", n)).unwrap_or_else(|| "nothing".into())));
+                        }
+                        open.push(x);
+                        k += 1;
+                    }
+                    NodeEvent::Leave(x) => match open.pop() {
+                        Some(y) if same_node(&x, &y) => {}
+                        Some(y) => return Err(format!("{}: Leave({}) does not match innermost open Enter({})", what, x, y)),
+                        None => return Err(format!("{}: Leave({}) without open Enter", what, x)),
+                    },
+                }
+            }
+            if k != want.len() || !open.is_empty() {
+                return Err(format!("{}: {} Enter events for {} remaining nodes, {} left open", what, k, want.len(), open.len()));
+            }
+            Ok(())
+        };
+        let n = items.len();
+        let mut ks = vec![1usize, 2, n / 3, n / 2, n - 1];
+        ks.sort();
+        ks.dedup();
+        for k in ks {
+            if k == 0 || k >= n {
+                continue;
+            }
+            let mut it = root_iter();
+            for _ in 0..k {
+                it.next();
+            }
+            st.advanced_event_views += 1;
+            check_events(it.event(), &items[k..], &format!("event view of an iterator advanced by {}", k))?;
+        }
+        // an iterator over two sibling subtrees
+        let mut count_at: std::collections::HashMap<usize, usize> = std::collections::HashMap::new();
+        for (s0, c) in &sizes {
+            count_at.insert(*s0, *c);
+        }
+        let mut done = 0;
+        for (s0, c) in sizes.iter().rev() {
+            if done >= 3 {
+                break;
+            }
+            // children of the node at s0: s0+1, then skip subtree by subtree
+            let c1 = s0 + 1;
+            if *c < 3 || c1 >= n {
+                continue;
+            }
+            let n1 = *count_at.get(&c1).unwrap_or(&0);
+            let c2 = c1 + n1;
+            if n1 == 0 || c2 >= s0 + c {
+                continue;
+            }
+            let n2 = *count_at.get(&c2).unwrap_or(&0);
+            if n2 == 0 {
+                continue;
+            }
+            let make = || Iter::new(RefNodes(vec![items[c1].clone(), items[c2].clone()]));
+            let plain: Vec<RefNode<'a>> = make().collect();
+            let want = &items[c1..c2 + n2];
+            if plain.len() != want.len() || plain.iter().zip(want.iter()).any(|(a, b)| !same_node(a, b)) {
+                return Err(format!("iteration over the two siblings {} and {} is not the corresponding slice of the parent's iteration", items[c1], items[c2]));
+            }
+            st.advanced_event_views += 1;
+            check_events(make().event(), want, &format!("event view of an iterator over the siblings {} and {}", items[c1], items[c2]))?;
+            done += 1;
         }
     }
     // sub-iteration of a node == slice of parent's iteration
